@@ -5,6 +5,7 @@ import (
 	"sort"
 	"strconv"
 	"strings"
+	"sync"
 
 	"go.uber.org/zap/zapcore"
 
@@ -50,6 +51,7 @@ func (c c20) scenario() sched.Scenario {
 		}
 		total := next
 		started, finished := map[string]bool{}, map[string]bool{}
+		var hmu sync.Mutex // harness bookkeeping only; never held across a library call
 		var snaps [][]string
 		var snapStarted, snapFinished []map[string]bool
 		var bodies []func()
@@ -57,9 +59,13 @@ func (c c20) scenario() sched.Scenario {
 			s := s
 			bodies = append(bodies, func() {
 				for _, x := range s {
+					hmu.Lock()
 					started[x.msg] = true
+					hmu.Unlock()
 					_ = w.Cores[x.core].Write(zapcore.Entry{Level: zapcore.InfoLevel, Message: x.msg}, nil)
+					hmu.Lock()
 					finished[x.msg] = true
+					hmu.Unlock()
 				}
 			})
 		}
@@ -67,14 +73,18 @@ func (c c20) scenario() sched.Scenario {
 			bodies = append(bodies, func() {
 				for i := 0; i < 2; i++ {
 					fin := map[string]bool{}
+					hmu.Lock()
 					for k := range finished {
 						fin[k] = true
 					}
+					hmu.Unlock()
 					logs := lg.Logs(w.ML)
 					st := map[string]bool{}
+					hmu.Lock()
 					for k := range started {
 						st[k] = true
 					}
+					hmu.Unlock()
 					snaps = append(snaps, logs)
 					snapFinished = append(snapFinished, fin)
 					snapStarted = append(snapStarted, st)
